@@ -4,7 +4,7 @@ needs it (contracts/P_out2.py calls register(ix)); nothing here changes the mean
     subprocess.Popen(cmd, stdin=.., stdout=.., stderr=..)
         cmd: a python list of strings (concrete length) or a list of strings of symbolic length.  The call
           * creates a new object of the (library) class Popen: field `returncode` (an unknown integer: the exit status
-            seen after communicate());
+            seen after communicate()) and the ghost field `timeout_used` (None; set by communicate(timeout=...));
           * replaces the ghost file system fs by proc_fs(fs, cmd) -- an UNINTERPRETED function: the external program may
             change anything on disk, as a function of the disk and its command line;
           * raises nothing (a missing executable -- OSError -- is not modelled: listed in the note).
@@ -111,7 +111,8 @@ def lib_popen(ip, st, pos, kws):
     st.notes["$fs"] = after
     _wf(ip, st, after)
     rc = ip.reg.new("returncode", "Int")
-    proc = ip.new_cell(st, ObjCell("Popen", {"returncode": Num(rc)}))
+    from .dicts import scalar
+    proc = ip.new_cell(st, ObjCell("Popen", {"returncode": Num(rc), "timeout_used": Opaque(scalar(ip, st, NONE))}))
     return [(st, proc)]
 
 
@@ -153,11 +154,12 @@ def register(ix):
     ix.spec_names["cmd_line"] = sp_cmd_line
     ix.spec_names["cmd_of"] = sp_cmd_of
     if "Popen" not in ix.classes:
-        ix.add_class(ClassSpec("Popen", "<stdlib>/subprocess.py", fields={"returncode": "Int"}))
+        ix.add_class(ClassSpec("Popen", "<stdlib>/subprocess.py", fields={"returncode": "Int", "timeout_used": "Val"}))
         ix.add(Contract(
             "<stdlib>/subprocess.py", "Popen.communicate", props=[], trusted=True,
-            params={"self": "Self[Popen]", "input": "Any", "timeout": "Any"}, result="Tuple[V,V]",
+            params={"self": "Self[Popen]", "input": "Any", "timeout": "Val"}, result="Tuple[V,V]",
             defaults={"input": None, "timeout": None},
-            modifies=[],
+            ensures=["self.timeout_used == timeout"], modifies=["self.timeout_used"],
             notes="subprocess (stdlib): communicate(input=None, timeout=None) waits for the process and returns "
-                  "(stdout data, stderr data); changes nothing of the program state (TimeoutExpired is not modelled)"))
+                  "(stdout data, stderr data); the ghost field timeout_used of the process object records the timeout it was "
+                  "given (None before / without one); TimeoutExpired is not modelled"))
